@@ -153,15 +153,15 @@ example :
         (fun x => (decodeCompressed tmpl8 2 x.2.reverse).map (fun y => y.1.map (·.vals)))
       = .ok (.ok [[.int 0], [.int 300]]) := by decide +kernel
 
-/-- Why the full statement needs one more refusal: 255 is the all-ones pattern of an 8-bit field.
-    Uncompressed it reads back as missing; in a compressed column next to a different value it reads
-    back as 255 (the decoder re-checks the field's missing pattern only for code / flag tables). -/
+/-- 255 is the all-ones pattern of an 8-bit field.  Uncompressed it reads back as missing; since the repair of
+    finding F18 (`_all_ones_as_missing` in the compressed encoder, mirrored by `encIntColumnN`) a compressed
+    column treats it as missing too, so both encodings agree (before, it read back as 255 when compressed). -/
 example :
     (encodeSubset tmpl8 [.int 255] []).map
         (fun x => (decodeSubset tmpl8 x.2.reverse).map (fun y => y.1.vals)) = .ok (.ok [.missing]) ∧
     (encodeCompressed tmpl8 [[.int 0], [.int 255]]).map
         (fun x => (decodeCompressed tmpl8 2 x.2.reverse).map (fun y => y.1.map (·.vals)))
-      = .ok (.ok [[.int 0], [.int 255]]) := by decide +kernel
+      = .ok (.ok [[.int 0], [.missing]]) := by decide +kernel
 
 end C05WalkEx
 
